@@ -10,6 +10,7 @@ import (
 	"fmt"
 	"sort"
 	"strings"
+	"verif/harness/rdr"
 
 	"github.com/sqlc-dev/doubleclick/parser"
 	"github.com/sqlc-dev/doubleclick/token"
@@ -40,7 +41,7 @@ func probe(sql, want string) string {
 				e = fmt.Errorf("panic: %v", r)
 			}
 		}()
-		ss, err := parser.Parse(context.Background(), strings.NewReader(sql))
+		ss, err := parser.Parse(context.Background(), rdr.For(sql))
 		for _, x := range ss {
 			s = append(s, x)
 		}
@@ -52,7 +53,7 @@ func probe(sql, want string) string {
 	if len(stmts) != 1 {
 		return fmt.Sprintf("%d statements", len(stmts))
 	}
-	ss, _ := parser.Parse(context.Background(), strings.NewReader(sql))
+	ss, _ := parser.Parse(context.Background(), rdr.For(sql))
 	text := parser.Explain(ss[0])
 	for _, l := range strings.Split(text, "\n") {
 		if strings.TrimLeft(l, " ") == want {
@@ -144,7 +145,7 @@ func main() {
 						e = fmt.Errorf("panic: %v", r)
 					}
 				}()
-				ss, err := parser.Parse(context.Background(), strings.NewReader(sql))
+				ss, err := parser.Parse(context.Background(), rdr.For(sql))
 				for _, x := range ss {
 					s = append(s, x)
 				}
@@ -156,7 +157,7 @@ func main() {
 			if len(stmts) != 1 {
 				return fmt.Sprintf("%d statements", len(stmts))
 			}
-			ss, _ := parser.Parse(context.Background(), strings.NewReader(sql))
+			ss, _ := parser.Parse(context.Background(), rdr.For(sql))
 			if text := parser.Explain(ss[0]); !strings.Contains(text, want) {
 				return "EXPLAIN lacks " + strconvQ(want)
 			}
@@ -165,7 +166,7 @@ func main() {
 		// the keyword is only a NAME here: the tree must be the one an ordinary identifier gets in the same place
 		explainOf := func(sql string) string {
 			defer func() { recover() }()
-			ss, err := parser.Parse(context.Background(), strings.NewReader(sql))
+			ss, err := parser.Parse(context.Background(), rdr.For(sql))
 			if err != nil || len(ss) != 1 {
 				return "<no single statement>"
 			}
